@@ -232,13 +232,29 @@ Definition check_mac1 (sdev : kid) (body m1 : term) : bool := mac_ok (mac1_key (
    Slice of the device: the handshake paths of receive.go (RoutineHandshake,
    the transport receive path as far as key selection goes) and send.go
    (SendHandshakeInitiation, SendHandshakeResponse, SendKeepalive /
-   SendStagedPackets as far as key selection goes).  Device up, peers
-   running, not under load, no cookie held, no timer fires (scenarios last
-   milliseconds; the 20 ms / 5 s rate limits are moved out of the way by the
-   harness with VerifShiftHandshakeTimes). *)
+   SendStagedPackets as far as key selection goes), the cookie generator of
+   each peer (ConsumeReply / AddMacs) and Device.Down();Up() (Peer.Stop ->
+   ZeroAndFlushAll -> Handshake.Clear).  Between restarts the device is up and
+   the peers run; not under load; no timer fires and a held cookie does not
+   expire (scenarios last milliseconds; the 20 ms / 5 s rate limits are moved
+   out of the way by the harness with VerifShiftHandshakeTimes). *)
 
-Record peer := { p_id : kid; p_hs : hs; p_kp : slots; p_staged : N }.
+Record peer := { p_id : kid; p_hs : hs; p_kp : slots; p_staged : N;
+                 p_cookie : option term;      (* cookieGenerator.mac2.cookie while cookieSet is fresh *)
+                 p_lastmac1 : option term }.  (* cookieGenerator.mac2.lastMAC1 / hasLastMAC1 *)
 Record dev := { d_static : kid; d_peers : list peer }.
+
+Definition new_peer (id : kid) (h : hs) : peer :=
+  {| p_id := id; p_hs := h; p_kp := no_slots; p_staged := 0; p_cookie := None; p_lastmac1 := None |}.
+(* protocol state of a peer replaced, cookie generator kept *)
+Definition upd (p : peer) (h : hs) (s : slots) (n : N) : peer :=
+  {| p_id := p_id p; p_hs := h; p_kp := s; p_staged := n; p_cookie := p_cookie p; p_lastmac1 := p_lastmac1 p |}.
+Definition sent_mac1 (p : peer) (m1 : term) : peer :=
+  {| p_id := p_id p; p_hs := p_hs p; p_kp := p_kp p; p_staged := p_staged p; p_cookie := p_cookie p;
+     p_lastmac1 := Some m1 |}.
+Definition got_cookie (p : peer) (c : term) : peer :=
+  {| p_id := p_id p; p_hs := p_hs p; p_kp := p_kp p; p_staged := p_staged p; p_cookie := Some c;
+     p_lastmac1 := p_lastmac1 p |}.
 
 Definition hs_list (d : dev) : list (kid * hs) := map (fun p => (p_id p, p_hs p)) (d_peers d).
 
@@ -265,15 +281,28 @@ Inductive ev :=
 | EResp (m : resp_msg)                             (* datagram: response *)
 | EData (receiver : N) (counter : N) (c : term)    (* datagram: transport, c = sealed content *)
 | ETun (to : kid) (e : kid) (ts idx : N)           (* TUN packet routed to peer [to]; oracles if it initiates *)
-| EKick (to : kid) (e : kid) (ts idx : N).         (* SendHandshakeInitiation(false) (hook) *)
+| EKick (to : kid) (e : kid) (ts idx : N)          (* SendHandshakeInitiation(false) (hook) *)
+| ERestart                                         (* Device.Down(); Device.Up(): every peer Stop()ped and Start()ed *)
+| ECookie (receiver : N) (nonce : N) (c : term).   (* datagram: cookie reply, c = the sealed cookie field *)
+
+(* Handshake.Clear(): the per-handshake secrets and the local index go; the
+   CONFIGURATION of the peer (presharedKey, remoteStatic, precomputedStaticStatic)
+   and lastTimestamp / remoteIndex stay. *)
+Definition clear_handshake (h : hs) : hs :=
+  {| st := handshakeZeroed; hash := TZero; ck := TZero; psk := psk h; leph := O; lidx := 0;
+     ridx := ridx h; rstatic := rstatic h; reph := TZero; ss := ss h; lastTs := lastTs h |}.
+
+(* Peer.Stop() -> ZeroAndFlushAll(): keypairs deleted, handshake cleared, staged packets flushed;
+   the cookie generator is not touched. *)
+Definition restart_peer (p : peer) : peer := upd p (clear_handshake (p_hs p)) no_slots 0.
 
 (* SendHandshakeInitiation *)
 Definition send_initiation (d : dev) (p : peer) (e : kid) (ts idx : N) : dev * list out :=
   match create_init (d_static d) (p_hs p) e ts idx with
   | None => (d, [])
   | Some (h', m) =>
-    (upd_peer d {| p_id := p_id p; p_hs := h'; p_kp := p_kp p; p_staged := p_staged p |},
-     [OInit (p_id p) (stamp_init (TPub (p_id p)) None m)])
+    let m' := stamp_init (TPub (p_id p)) (p_cookie p) m in
+    (upd_peer d (sent_mac1 (upd p h' (p_kp p) (p_staged p)) (i_mac1 m')), [OInit (p_id p) m'])
   end.
 
 (* SendStagedPackets / SendKeepalive under the current keypair: staged packets
@@ -309,6 +338,16 @@ Fixpoint find_kp_index (ps : list peer) (idx : N) : option (peer * keypair) :=
   | p :: r => match kp_get (p_kp p) idx with Some k => Some (p, k) | None => find_kp_index r idx end
   end.
 
+(* index table: the peer of any entry (cookie replies) *)
+Definition find_any_index (ps : list peer) (idx : N) : option peer :=
+  match find_hs_index ps idx with
+  | Some p => Some p
+  | None => match find_kp_index ps idx with Some (p, _) => Some p | None => None end
+  end.
+
+(* CookieGenerator.Init(pk): mac2.encryptionKey = Hash(WGLabelCookie || pk) *)
+Definition cookie_key (pk : term) : term := THash2 LabelCookie pk.
+
 Definition dev_step (d : dev) (e : ev) : dev * list out :=
   match e with
   | EInit m er idx =>
@@ -321,13 +360,13 @@ Definition dev_step (d : dev) (e : ev) : dev * list out :=
         | None => (d, [])
         | Some p =>
           match create_resp h1 er idx with
-          | None => (upd_peer d {| p_id := pid; p_hs := h1; p_kp := p_kp p; p_staged := p_staged p |}, [])
+          | None => (upd_peer d (upd p h1 (p_kp p) (p_staged p)), [])
           | Some (h2, r) =>
+            let r' := stamp_resp (TPub pid) (p_cookie p) r in
             match begin_session h2 (p_kp p) with
-            | None => (upd_peer d {| p_id := pid; p_hs := h2; p_kp := p_kp p; p_staged := p_staged p |}, [])
+            | None => (upd_peer d (sent_mac1 (upd p h2 (p_kp p) (p_staged p)) (r_mac1 r')), [])
             | Some (h3, s3, _) =>
-              (upd_peer d {| p_id := pid; p_hs := h3; p_kp := s3; p_staged := p_staged p |},
-               [OResp pid (stamp_resp (TPub pid) None r)])
+              (upd_peer d (sent_mac1 (upd p h3 s3 (p_staged p)) (r_mac1 r')), [OResp pid r'])
             end
           end
         end
@@ -344,8 +383,7 @@ Definition dev_step (d : dev) (e : ev) : dev * list out :=
           | None => (d, [])
           | Some (h2, s2, k) =>
             (* timersHandshakeComplete; SendKeepalive: staged packets or one keepalive *)
-            (upd_peer d {| p_id := p_id p; p_hs := h2; p_kp := s2; p_staged := 0 |},
-             flush (p_id p) k (p_staged p) true)
+            (upd_peer d (upd p h2 s2 0), flush (p_id p) k (p_staged p) true)
           end
         end
       end
@@ -359,7 +397,7 @@ Definition dev_step (d : dev) (e : ev) : dev * list out :=
           let '(s', promoted) := received_with (kp_lidx k) (p_kp p) in
           let outs1 := if promoted then flush (p_id p) k (p_staged p) false else [] in
           let staged' := if promoted then 0 else p_staged p in
-          (upd_peer d {| p_id := p_id p; p_hs := p_hs p; p_kp := s'; p_staged := staged' |},
+          (upd_peer d (upd p (p_hs p) s' staged'),
            (match plain with TEmpty => [] | _ => [OTunWrite (p_id p)] end) ++ outs1)
         end
       end
@@ -368,11 +406,9 @@ Definition dev_step (d : dev) (e : ev) : dev * list out :=
       | None => (d, [])
       | Some p =>
         match current (p_kp p) with
-        | Some k =>
-          (upd_peer d {| p_id := p_id p; p_hs := p_hs p; p_kp := p_kp p; p_staged := 0 |},
-           flush to k (p_staged p + 1) false)
+        | Some k => (upd_peer d (upd p (p_hs p) (p_kp p) 0), flush to k (p_staged p + 1) false)
         | None =>
-          let p' := {| p_id := p_id p; p_hs := p_hs p; p_kp := p_kp p; p_staged := p_staged p + 1 |} in
+          let p' := upd p (p_hs p) (p_kp p) (p_staged p + 1) in
           send_initiation (upd_peer d p') p' e ts idx
         end
       end
@@ -380,5 +416,21 @@ Definition dev_step (d : dev) (e : ev) : dev * list out :=
       match get_peer (d_peers d) to with
       | None => (d, [])
       | Some p => send_initiation d p e ts idx
+      end
+  | ERestart =>
+      ({| d_static := d_static d; d_peers := map restart_peer (d_peers d) |}, [])
+  | ECookie receiver nonce c =>
+      (* RoutineHandshake, MessageCookieReplyType: index lookup, CookieGenerator.ConsumeReply *)
+      match find_any_index (d_peers d) receiver with
+      | None => (d, [])
+      | Some p =>
+        match p_lastmac1 p with
+        | None => (d, [])                                  (* !hasLastMAC1 *)
+        | Some m1 =>
+          match aead_open (cookie_key (TPub (p_id p))) nonce c m1 with   (* xchapoly.Open(.., msg.Nonce, msg.Cookie, lastMAC1) *)
+          | None => (d, [])                                (* does not authenticate: nothing is stored *)
+          | Some ck => (upd_peer d (got_cookie p ck), [])
+          end
+        end
       end
   end.
